@@ -2,6 +2,7 @@ SPECIFICATION Spec
 CONSTANTS MaxN = 3
 Coords <- C3
 CtrlCoords <- C2
+Letters <- LettersAll
 GuardZ = TRUE
 GuardDeg = TRUE
 GuardZeroL = TRUE
